@@ -149,6 +149,11 @@ pub fn render(v: &Val, ctx: &mut Ctx) -> TokenStream {
                 _ => std::iter::once(ident(&name)).collect(),
             }
         }
+        // syn::Index { index, span }: printed as the index
+        Val::Struct { name, fields } if name == "Index" && fields.iter().any(|(n, _)| n == "index" || n == "..") => {
+            let v = fields.iter().find(|(n, _)| n == "index").or_else(|| fields.iter().find(|(n, _)| n == "..")).map(|(_, v)| v.clone()).unwrap();
+            render(&v, ctx)
+        }
         Val::Struct { .. } => { ctx.notes.push(format!("struct value in template {}", v.short().chars().take(60).collect::<String>())); std::iter::once(ident("__struct")).collect() }
         Val::Tuple(vs) if vs.is_empty() => TokenStream::new(),
         Val::Int(i) => std::iter::once(TokenTree::Literal(Literal::i128_unsuffixed(*i))).collect(),
